@@ -68,7 +68,7 @@ static void account(layout_t *L, const smat_t *M, verdict_t *V, const char *cs, 
     }
     char cls[128], sig[300];
     if (!M) snprintf(cls, sizeof cls, "sample");
-    else if (!strcmp(V->clause, "symmetric-not-expanded")) cls[0] = 0;
+    else if (!strcmp(V->clause, "symmetric-not-expanded") || !strcmp(V->clause, "values:double-rounding")) cls[0] = 0;
     else attribute(L, M, V, cls, sizeof cls);
     if (V->status == ST_HANG) { G->hangs++; snprintf(sig, sizeof sig, "%s:crash:hang:%s:%s", PROP, RDN[L->rd], cls); }
     else if (V->status == ST_DEATH) { G->deaths++; snprintf(sig, sizeof sig, "%s:crash:%s:%s:%s", PROP, crash_site(V->cd), RDN[L->rd], cls); }
@@ -117,9 +117,10 @@ static void run_range(long lo, long hi, void (*fn)(long)) {
             vf_sh->done = 1; fflush(vf_out); _exit(0);      /* not fflush(NULL): it would visit abandoned streams */
         }
         int st = 0, code; waitpid(pid, &st, 0); vf_last_child = pid;
-        if (WIFEXITED(st) && WEXITSTATUS(st) == 0 && vf_sh->done) break;
+        if (WIFEXITED(st) && WEXITSTATUS(st) == 0 && vf_sh->done) { drop_san_log(pid); break; }
         int kind = wait_kind(st, &code);
         next = on_death(vf_sh->cur, kind, code);
+        drop_san_log(pid);
     }
 }
 
@@ -151,8 +152,8 @@ int main(int argc, char **argv) {
     MEMO = mmap(NULL, sizeof *MEMO, PROT_READ | PROT_WRITE, MAP_SHARED | MAP_ANONYMOUS, -1, 0);
     VS = mmap(NULL, sizeof *VS, PROT_READ | PROT_WRITE, MAP_SHARED | MAP_ANONYMOUS, -1, 0);
     vf_sh = mmap(NULL, sizeof *vf_sh, PROT_READ | PROT_WRITE, MAP_SHARED | MAP_ANONYMOUS, -1, 0);
-    G->samples_left = 3; G->isolate_idx = -1;
-    if (getenv("VF_HANG_CPU_MS")) HANG_CPU_S = atof(getenv("VF_HANG_CPU_MS")) * 1e-3;
+    G->samples_left = 3; G->isolate_idx = -1; TOK_REF_DIFF = &G->ref_diff;
+    HANG_TICKS = arg_int(argc, argv, "--hang-ticks", 6);
     PROP = arg_str(argc, argv, "--prop", "C20");
     DUMP = arg_int(argc, argv, "--dump", 0);
     build_titles();
@@ -196,8 +197,8 @@ int main(int argc, char **argv) {
     out_init();
     fprintf(vf_out, "{\"type\":\"stats\",\"property\":\"%s\",\"prec\":\"%c\",\"reader\":\"%s\",\"grid\":\"%s\",\"io\":\"%s\",\"slice\":\"%d/%d\",\"matrices\":%d,\"layouts\":%d,\"families\":{%s},"
             "\"cases\":%ld,\"cases_total\":%ld,\"complete\":%s,\"runs\":%ld,\"judged\":%ld,\"skipped\":%ld,\"skip_rule\":\"symmetric type code on a non-symmetric pattern / number does not fit the field\","
-            "\"not_enumerated_for_this_layout\":%ld,\"clean\":%ld,\"violations\":%ld,\"hangs\":%ld,\"deaths\":%ld,\"attribution_probes\":%ld,\"distinct_outcomes\":%ld,\"selfcheck\":",
-            PROP, PCH, RDN[rd], grid, io, islice, nslice, NMAT, NLAY, fam, done, mine, complete ? "true" : "false", G->runs, G->judged, G->skipped, G->restricted, G->clean, G->viol, G->hangs, G->deaths, G->harness_deaths, G->probes, G->distinct);
+            "\"not_enumerated_for_this_layout\":%ld,\"clean\":%ld,\"violations\":%ld,\"hangs\":%ld,\"deaths\":%ld,\"harness_deaths\":%ld,\"attribution_probes\":%ld,\"distinct_outcomes\":%ld,\"reference_tokens_where_strtold_rounds_differently\":%ld,\"selfcheck\":",
+            PROP, PCH, RDN[rd], grid, io, islice, nslice, NMAT, NLAY, fam, done, mine, complete ? "true" : "false", G->runs, G->judged, G->skipped, G->restricted, G->clean, G->viol, G->hangs, G->deaths, G->harness_deaths, G->probes, G->distinct, G->ref_diff);
     out_str(vf_out, sc);
     fprintf(vf_out, ",\"by_sig\":{%s},\"cpu_s\":%.2f,\"wall_s\":%.2f}\n", bs, cpu_total_s(), now_s() - t0); fflush(vf_out);
     return sc_bad ? 3 : 0;
